@@ -19,10 +19,10 @@ from vlib import ToolError, log
 PROFILE = {"C16": "handshake", "C03": "go", "C04": "position", "C13": "determinism", "C09": "repetition"}
 TIERS = {
     "quick": {"C16": dict(procs=16, num=6, max_cmds=12), "C03": dict(procs=16, num=8, max_cmds=12),
-              "C04": dict(procs=16, num=5, max_cmds=10), "C13": dict(procs=16, num=3, max_cmds=8),
+              "C04": dict(procs=16, num=5, max_cmds=10), "C13": dict(procs=16, num=3, max_cmds=8, pressure=dict(procs=8, num=1, max_cmds=9, runs=3)),
               "C09": dict(procs=16, num=5, max_cmds=12)},
     "thorough": {"C16": dict(procs=16, num=120, max_cmds=14), "C03": dict(procs=16, num=200, max_cmds=14),
-                 "C04": dict(procs=16, num=80, max_cmds=12), "C13": dict(procs=16, num=60, max_cmds=8),
+                 "C04": dict(procs=16, num=80, max_cmds=12), "C13": dict(procs=16, num=60, max_cmds=8, pressure=dict(procs=16, num=3, max_cmds=12, runs=4)),
                  "C09": dict(procs=16, num=80, max_cmds=14)},
 }
 
@@ -155,6 +155,39 @@ def run_process_level(prop, tier, seed, R, scripts_override=None):
                     if e.get("kind") == ("go" if prop in ("C03", "C13") else "uci" if prop == "C16" else "position"):
                         R.sample({k: v for k, v in e.items() if k != "start"})
                         break
+        if prop == "C13" and scripts_override is None and T.get("pressure"):
+            # table pressure: one long game searched deeply (depth 6-7) without ucinewgame, each script in several
+            # processes (several key draws): whatever depends on the hash keys shows only with a large table
+            P = T["pressure"]
+            pg = gen_scripts(work, "pressure", P["procs"], P["num"], seed + 13, P["max_cmds"])
+            jobs = []
+            for gi, g in enumerate(pg):
+                for si, sc in enumerate(proc.load_scripts(g[0])):
+                    jobs.append((gi, si, sc))
+
+            def prun(job):
+                gi, si, sc = job
+                body = [c for c in sc if c["kind"] not in ("quit", "eof")] + [{"k": "C", "kind": "quit", "text": "quit"}]
+                return [proc.run_script(exe, body, go_timeout=300.0) for _ in range(P["runs"])]
+            p_runs = p_nodes = 0
+            for (gi, si, sc), evs in zip(jobs, vlib.parallel(prun, jobs)):
+                tp = os.path.join(work, "ptrace_%d_%d.ndjson" % (gi, si))
+                with open(tp, "w") as f:
+                    for run_events in evs:
+                        for e in run_events:
+                            f.write(json.dumps(e) + "\n")
+                            for o in e.get("out", []):
+                                if o.get("t") == "info":
+                                    p_nodes = max(p_nodes, o.get("nodes", 0))
+                        p_runs += 1
+                matched, results, rej = vlib.validate_trace("UciTrace", "UciTrace.cfg", tp, lambda e: e["ev"] == "start", timeout=3000, xmx="3g")
+                events += matched
+                for r in results:
+                    R.add_tlc(r)
+                classify(prop, rej, R, "process", lambda rj: script_from_segment(rj["segment"]))
+            total_runs += p_runs
+            R.coverage["table_pressure"] = {"scripts": len(jobs), "engine_runs": p_runs, "largest_search_nodes": p_nodes}
+            log("[C13] table pressure: %d scripts x %d processes, largest search %d nodes" % (len(jobs), P["runs"], p_nodes))
         if gens:
             for g in gens:
                 R.coverage["transitions"] += g[1].generated
